@@ -153,7 +153,13 @@ def run(ctx, idx):
     # holds text where the original held a number
     from .C20 import tuple_text_to_text
 
-    _und_j = tuple_text_to_text(ctx, idx, "C15.j", consequence=" - and to_string writes every tuple value as a quoted string, so the same program written out and loaded again holds text there: the reloaded program is not the one that was serialised")
+    _src_ts0 = K.src(getattr(_ts, "node_orig", None) or _ts.node)
+    if '"{}": "{}"' not in _src_ts0 and "'\"{}\": \"{}\"'" not in _src_ts0:
+        # the serialiser no longer writes every tuple value between quotes: what the cleaner may keep depends on what the new
+        # writer does with it - not read here
+        _und_j = ["C15.j: the serialiser writes tuple values in a form of its own (not `\"key\": \"value\"` for every value); whether cleaner and writer agree on which values stay numbers is not decided"]
+    else:
+      _und_j = tuple_text_to_text(ctx, idx, "C15.j", consequence=" - and to_string writes every tuple value as a quoted string, so the same program written out and loaded again holds text there: the reloaded program is not the one that was serialised")
     ctx.assume("str()/repr() of int prints -?d+; of float prints d+.d+, d(.d+)?e[+-]dd+, inf or nan (reference languages fixed by Python)")
     ctx.rule("C15.a", "Numbers: every text the serialiser can print for an int or float is read back as a number: L_repr_int ⊆ L(INT) and L_repr_float ⊆ L(FLOAT) ∪ (single plain token that float() accepts).")
     ctx.rule("C15.b", "Strings are escaped for the reader: a str value reaches the output between quotes only through an escaping step handling the backslash and then the quote; reference names are emitted bare only for Result-typed parameters.")
